@@ -86,3 +86,39 @@ def run(ctx, info):
                                 "clock +%s" % ("11 s (L expired, not swept)" if c["stale"] else "1 s"),
                                 "A.%s(L) with B.%s(evt_1) run at A's clock reading no. %d" % (c["a_op"], c["b_op"], c["hook_at"])]})
     return {"two_stores": stats}
+
+
+FILTER_ALLOWED = {
+    # (A's count, B's own count, messages B leased, final state)
+    "requeue-vs-resume-and-lease": {(1, 0, 1, "leased"), (0, 1, 1, "leased")},
+    "resume-vs-requeue-and-lease": {(1, 0, 1, "leased"), (0, 1, 1, "leased")},
+    "cancel-vs-ack": {(1, 0, 0, "canceled"), (0, 1, 1, "delivered")},
+}
+
+
+def run_filter(ctx, info):
+    """C14: a by-filter mutation (select, then write) of one store object with a competing state change made through the other store
+    object at the clock reading between the two statements.  The outcome must be that of one of the two serial orders on the queue
+    model: the mutation changes - and counts - only messages that are in a state it is defined for when it changes them."""
+    cases = [{"scenario": sc, "hook_at": k} for sc in FILTER_ALLOWED for k in (1, 2, 3)]
+    rc, out, err = C.harness_run(info["hbin"], ["two-stores-filter"], {"dir": os.path.join(ctx.scratch, "twostoresf"), "cases": cases}, timeout=600)
+    if rc != 0:
+        raise RuntimeError("two-stores-filter failed: " + err[-1500:])
+    stats = {"cases": len(cases), "operator_inside_gateway_call": 0}
+    for c, o in zip(cases, json.loads(out)["cases"]):
+        if o.get("err"):
+            raise RuntimeError("two-stores-filter case %s: %s" % (c, o["err"]))
+        stats["operator_inside_gateway_call"] += 1 if o["b_inside"] else 0
+        got = (o["a_count"], o["b_count"], o["b_leased"], o["final"])
+        problems = []
+        if o.get("a_err"):
+            problems.append("the by-filter call failed: %s" % o["a_err"])
+        elif got not in FILTER_ALLOWED[c["scenario"]]:
+            problems.append("by-filter call counted %d, the competing call counted %d and leased %d, the message ends %r - not the outcome of either serial "
+                            "order %s" % (o["a_count"], o["b_count"], o["b_leased"], o["final"], sorted(FILTER_ALLOWED[c["scenario"]])))
+        if o["final"] == "leased" and not o["final_lease"]:
+            problems.append("the message is leased without a lease id")
+        if problems:
+            C.report(ctx, "two-stores-filter:%s:%s" % (c["scenario"], "inside" if o["b_inside"] else "after"), "; ".join(problems),
+                     {"kind": "history", "case": c, "observed": o, "allowed_outcomes": sorted(FILTER_ALLOWED[c["scenario"]])})
+    return {"two_stores_filter": stats}
